@@ -43,7 +43,10 @@ func (r *Replayer) Replay(process func(record []byte) error) (err error) {
 		}
 	}()
 
-	for _, path := range walFiles {
+	for i, path := range walFiles {
+		// only the newest file can be cut short by a crash: rotation closes a file completely before the next one is created
+		isLastFile := i == len(walFiles)-1
+
 		reader, err := r.walOptions.readerFactory(path)
 		if err != nil {
 			return fmt.Errorf("error while creating WAL reader under '%s': %w", path, err)
@@ -52,6 +55,10 @@ func (r *Replayer) Replay(process func(record []byte) error) (err error) {
 
 		err = reader.Open()
 		if err != nil {
+			// a crash between creating the newest file and writing its header leaves it without records
+			if isLastFile && isTornTail(err) {
+				break
+			}
 			return fmt.Errorf("error while opening WAL reader under '%s': %w", path, err)
 		}
 
@@ -59,6 +66,11 @@ func (r *Replayer) Replay(process func(record []byte) error) (err error) {
 			bytes, err := reader.ReadNext()
 			// io.EOF signals that no records are left to be read
 			if errors.Is(err, io.EOF) {
+				break
+			}
+
+			// a crash can cut the last record of the newest file short, which marks the end of the log
+			if isLastFile && errors.Is(err, io.ErrUnexpectedEOF) {
 				break
 			}
 
@@ -74,6 +86,11 @@ func (r *Replayer) Replay(process func(record []byte) error) (err error) {
 	}
 
 	return nil
+}
+
+// isTornTail tells whether reading stopped because the file ended too early
+func isTornTail(err error) bool {
+	return errors.Is(err, io.EOF) || errors.Is(err, io.ErrUnexpectedEOF)
 }
 
 func NewReplayer(walOpts *Options) (WriteAheadLogReplayI, error) {
